@@ -227,10 +227,22 @@ func sendFlight(vc *gmtls.VerifConn, flight [][]string, build func(name string) 
 			vc.WriteCCS()
 			continue
 		}
+		if len(record) == 1 && (record[0] == "HR" || record[0] == "HX") {
+			// a handshake record of its own, not part of the transcript: HelloRequest / unknown type 99
+			if record[0] == "HR" {
+				vc.WriteHandshake([]byte{0, 0, 0, 0})
+			} else {
+				vc.WriteHandshake([]byte{0x63, 0, 0, 0})
+			}
+			continue
+		}
 		var payload []byte
 		for _, name := range record {
 			if name == "CCS" {
 				rfail("CCS must be a record of its own")
+			}
+			if name == "HR" || name == "HX" {
+				rfail("%s must be a record of its own", name)
 			}
 			payload = append(payload, build(name)...)
 		}
@@ -517,6 +529,22 @@ func runR(f []string) (string, string) {
 		}
 		cfg := &gmtls.Config{GMSupport: &gmtls.GMSupport{}, Certificates: []gmtls.Certificate{E.sig, E.enc},
 			ClientAuth: gmtls.ClientAuthType(auth), ClientCAs: poolSM2(), SessionTicketsDisabled: !tk}
+		cfg.Time = func() time.Time { return fixedNow }
+		return rPair(
+			func(conn net.Conn) *gmtls.Conn { return gmtls.Server(conn, cfg) },
+			func(conn net.Conn) string { return scriptedClient(conn, suite, cc, tk, uint16(chv), f[6]) })
+	case "sa": // auto-switch server, GMSSL ClientHello
+		auth, _ := strconv.Atoi(kv["auth"])
+		chv, err := strconv.ParseUint(f[5], 16, 16)
+		if err != nil {
+			return "BADCASE", ""
+		}
+		sig, enc, rsaC := E.sig, E.enc, E.rsa
+		cfg, err := gmtls.NewBasicAutoSwitchConfig(&sig, &enc, &rsaC)
+		if err != nil {
+			return "BADCASE", ""
+		}
+		cfg.ClientAuth, cfg.ClientCAs, cfg.SessionTicketsDisabled = gmtls.ClientAuthType(auth), poolSM2(), !tk
 		cfg.Time = func() time.Time { return fixedNow }
 		return rPair(
 			func(conn net.Conn) *gmtls.Conn { return gmtls.Server(conn, cfg) },
